@@ -212,7 +212,12 @@ def check_copy(res, objects, s, route, salt, info):
     for f in c.state_fluents.values():
         f.set_value(12345.0)
         f.signature.clear()
+    from pddl_plus_parser.models import PDDLFunction
+    newf = PDDLFunction(name="g", signature={})
+    newf.set_value(7.0)
+    c.state_fluents["(brand-new )"] = newf       # a new key in the copy's mapping (also when the mapping was empty)
     c.state_fluents.clear()
+    c.state_fluents["(brand-new )"] = newf
     try:
         after = read_lib_state(l)
     except BadState as e:
@@ -306,7 +311,7 @@ def gen(ch, tier):
     if ch.flag(0.5):
         vals = vals[:3] + [gen_value(ch) for _ in range(5)]
     facts = frozenset(a for a in atoms if ch.flag(0.4))
-    fl = {k: ch.choice(vals) for k in fls if ch.flag(0.7)}
+    fl = {k: ch.choice(vals) for k in fls if ch.flag(0.7)} if not ch.flag(0.1) else {}     # 1 in 10: no fluent at all
     s1 = (facts, fl)
     kind = ch.weighted([(3, "same"), (3, "one-fact"), (3, "one-value"), (1, "drop-fluent"), (2, "other")])
     f2, fl2 = set(facts), dict(fl)
